@@ -21,6 +21,7 @@ type verifRollWorld struct {
 	// same children as the sync hook and finalized = finalizeAnswers[x]
 	finalizeAnswers map[string]bool
 	requireReady    bool // children must carry status condition Ready=True to count as healthy
+	extraPath       bool // nested mode: revisionHistory.fieldPaths = [spec.nodePool, spec.template] with spec.nodePool never set
 	statusStanza    bool // the hook's children carry an (empty) status stanza and NOBODY ever writes a child's status
 	nested          bool
 	global          string // nested mode: value of the NON-revisioned field spec.x // revisioned value lives at spec.template.v, revision history = [spec.template]
@@ -153,6 +154,9 @@ func (r *verifRollWorld) newPC() {
 	var fieldPaths []string
 	if r.nested {
 		fieldPaths = []string{"spec.template"}
+		if r.extraPath {
+			fieldPaths = []string{"spec.nodePool", "spec.template"}
+		}
 	}
 	cfg := verifPCConfig{
 		FieldPaths: fieldPaths,
